@@ -4,7 +4,7 @@ import json
 from check import Result
 
 PROP = "C09"
-TARGETS = ["NetqasmVerif.Props.C09"]
+TARGETS = ["NetqasmVerif.Props.C09", "NetqasmVerif.Props.C09Bridge"]
 M = "NetqasmVerif.Props.C09"
 THEOREMS = [(M, "NQ.C09." + n) for n in [
     "inv_init", "agree_preserved_partial", "agree_step_partial", "no_alloc_fault", "agree_after_flush",
@@ -13,6 +13,10 @@ THEOREMS = [(M, "NQ.C09." + n) for n in [
     "f12_fixed_witness", "f29_fixed_witness", "nv_context_fixed_witness",
     "f28_counterexample", "f30_counterexample", "retry_exhausted_witness",
     "connections_independent", "agree_preserved_two_partial"]]
+MB = "NetqasmVerif.Props.C09Bridge"
+THEOREMS += [(MB, "NQ.C09Bridge." + n) for n in [
+    "event_step_refines_exec", "event_ok_iff_exec_ok", "exec_inv_preserved", "events_safe_on_exec",
+    "events_fault_on_exec", "flush_qsafe", "sdk_programs_qsafe", "qalloc_step_ok", "qfree_step_ok"]]
 TRANSLATORS = []
 LEVEL_TEXT = (
     "Lean theorems over histories of ANY length (induction over the operation list): the joint "
@@ -31,7 +35,10 @@ LEVEL_TEXT = (
     "F13, F12, F29 and the NV context-block deadlock are fixed in /repo and the fixed code is what "
     "is modelled. Tie: differential correspondence of the compiled model with the real SDK -> bytes "
     "-> Executor pipeline after every operation (handle ids/active flags, executed allocation "
-    "events, unit module, error class).")
+    "events, unit module, error class). Bridge to the executor model (Props/C09Bridge.lean): every "
+    "event is exactly the unit-module effect of the corresponding Exec instruction(s)/delivery, so for "
+    "every good history each flushed subroutine raises no allocation fault on Exec "
+    "(sdk_programs_qsafe); cross-model driver op qm.exec on the event traces of the random stream.")
 LEVEL_NOTE = (
     "Trusted: Lean kernel; harness/qubits.py (event recording through the executor's documented "
     "extension points, canonicalisation: consecutive uses merged into sets); the subroutine is "
@@ -157,8 +164,24 @@ def run(ctx):
             res.evaluations += 1
             res.count("schedule:oracle-only (event order depends on the schedule)")
             return real, notes
-        model = H.canon_model(ctx.driver.call({"op": "qm.run", **cfg, "ops": ops})["snaps"])
+        raw = ctx.driver.call({"op": "qm.run", **cfg, "ops": ops})["snaps"]
+        model = H.canon_model(raw)
         res.evaluations += 1
+        # ---- cross-model: the executed events through C09's `run` and on the executor model
+        evs, last_u = [], []
+        for o, sn in zip(ops, raw):
+            if o["k"] == "close":
+                break
+            if o["k"] == "flush":
+                evs += sn["ev"]
+                last_u = sn["u"]
+        if evs:
+            x = ctx.driver.call({"op": "qm.exec", "maxq": cfg["maxq"], "evs": evs})
+            res.count("cross-model:qm.exec")
+            if x["model"].get("fault") != x["exec"].get("fault") or x["model"].get("ok") != x["exec"].get("ok") \
+                    or (x["model"].get("ok") is not None and x["model"]["ok"] != sorted(last_u)):
+                res.disagreements.append({"stream": "qm.exec (event model vs executor model)",
+                                          "input": {"cfg": cfg, "evs": evs}, "model": x["model"], "code": x["exec"]})
         for o in ops:
             res.count("op:" + o["k"])
         res.count("cfg:%s%s" % ("nv" if cfg["nv"] or cfg["transp"] else "generic",
@@ -192,7 +215,7 @@ def run(ctx):
             res.samples.append({"cfg": cfg, "ops": ops, "last": real[-1]})
 
     # ---- correspondence + oracle
-    n_cases = 20000 if ctx.thorough else 1300
+    n_cases = 20000 if ctx.thorough else 1150
     for it in range(n_cases):
         cfg = {"nv": rng.random() < 0.6, "transp": False, "maxq": rng.randint(1, 5)}
         if rng.random() < 0.35:
@@ -260,6 +283,23 @@ def run(ctx):
                 c["transp"] = True
             cfgs.append(c)
         two(cfgs, H.random_ops2(rng, cfgs, rng.randint(1, 8)), "qm.two")
+
+    # ---- cross-model, malformed stream: arbitrary event lists (faults of every kind at every position)
+    reqs = []
+    for it in range(4000 if ctx.thorough else 400):
+        m = rng.randint(1, 5)
+        evs = []
+        for _ in range(rng.randint(1, 10)):
+            t = rng.choice(["A", "A", "F", "U", "D", "U2"])
+            v = rng.randint(0, m)  # m itself is outside the unit module
+            evs.append([t, v, rng.randint(0, m)] if t == "U2" else [t, v])
+        reqs.append({"op": "qm.exec", "maxq": m, "evs": evs})
+    for rq, x in zip(reqs, ctx.driver.batch(reqs)):
+        res.evaluations += 1
+        res.count("cross-model:random events -> " + ("fault:" + x["model"]["fault"] if "fault" in x["model"] else "ok"))
+        if x["model"].get("fault") != x["exec"].get("fault") or x["model"].get("ok") != x["exec"].get("ok"):
+            res.disagreements.append({"stream": "qm.exec (event model vs executor model, random events)",
+                                      "input": rq, "model": x["model"], "code": x["exec"]})
 
     # ---- oracle only: random Bell states (corrections are emitted for the receiver)
     n_bell = 5000 if ctx.thorough else 300
